@@ -273,6 +273,9 @@ def rules(rep, facts):
         from .rules_c07 import r3_promotion
         r3_promotion(rep, facts)
         rep.relabel('C07/R3', 'C13/R9', 'the pretty route prints what the plain route prints (a formatting pass that promotes tables inside values loses them: the text then decodes to another value): ')
+        from .rules_c07 import r3b_empty_tables
+        r3b_empty_tables(rep, facts)
+        rep.relabel('C07/R3b', 'C13/R9b', 'every encoding route keeps an empty table (a formatting pass that hides it makes the pretty text decode to less than the plain text): ')
         from .rules_c07 import r7_forwarding
         r7_forwarding(rep, facts, rid='C13/R6', traits=(sm.SER, sm.DE))
         if 'parse' in feats:
